@@ -375,6 +375,13 @@ func (e *Exec) external(st *State, instr ssa.Instruction, name string, fn *ssa.F
 		st.assume(tEq(tEq(p, "0"), tNot(ok)))
 		st.assume(tEq(app(e.fun("ctx_peer", []string{SInt}, SInt), args[0].T[1]), p))
 		return ret(Val{T: []string{p, ok}})
+	case "(grpchan.HandlerMap).QueryService":
+		// pure lookup in the (setup-phase, immutable while serving) handler table
+		sd := app(e.fun("svc_desc", []string{SInt, SInt}, SInt), args[0].T[0], args[1].T[0])
+		e.addAxiom("(forall ((m Int) (n Int)) (! (>= (svc_desc m n) 0) :pattern ((svc_desc m n))))")
+		ht := app(e.fun("svc_impl_tag", []string{SInt, SInt}, SInt), args[0].T[0], args[1].T[0])
+		hv := app(e.fun("svc_impl_val", []string{SInt, SInt}, SInt), args[0].T[0], args[1].T[0])
+		return ret(Val{T: []string{sd, ht, hv}})
 	// ---- proto ----
 	case "proto.Marshal":
 		r := e.allocRef(st, "marshal")
@@ -405,14 +412,7 @@ func (e *Exec) derivedCtx(st *State, parent Val, why string) Val {
 	e.addAxiom(app(">", tag, "0"))
 	v := e.allocRef(st, "ctx:"+why)
 	st.assume(app(e.descendsFn(), v, parent.T[1]))
-	// transitivity, instantiated for the grandparents we know about
-	for _, a := range st.assumes {
-		pre := "(" + e.descendsFn() + " " + parent.T[1] + " "
-		if strings.HasPrefix(a, pre) {
-			gp := strings.TrimSuffix(strings.TrimPrefix(a, pre), ")")
-			st.assume(app(e.descendsFn(), v, gp))
-		}
-	}
+	e.addAxiom("(forall ((a Int) (b Int) (c Int)) (! (=> (and (ctx_descends a b) (ctx_descends b c)) (ctx_descends a c)) :pattern ((ctx_descends a b) (ctx_descends b c))))")
 	// values of the parent stay visible unless overridden (instantiated lazily by ctxval lemma)
 	st.assume(tEq(app(e.fun("ctx_parent", []string{SInt}, SInt), v), parent.T[1]))
 	return Val{T: []string{tag, v}, Typ: parent.Typ}
